@@ -12,7 +12,10 @@ import (
 	"net"
 	"os"
 	"reflect"
+	"runtime"
 	"strings"
+	"sync"
+	"sync/atomic"
 	"syscall"
 	"time"
 	"unsafe"
@@ -34,7 +37,7 @@ type c15Op struct {
 }
 
 type c15Case struct {
-	Kind    string  `json:"kind"` // transport | reporter
+	Kind    string  `json:"kind"` // transport | reporter | closerace
 	Witness string  `json:"witness,omitempty"`
 	Multi   bool    `json:"multi,omitempty"`
 	Dests   int     `json:"dests"`
@@ -44,6 +47,10 @@ type c15Case struct {
 	Proto string `json:"proto,omitempty"`
 	Big   []int  `json:"big,omitempty"`
 	Later int    `json:"later,omitempty"`
+	// closerace: Closers goroutines call Close on one fresh transport at the
+	// same moment (spin barrier), Rounds times
+	Closers int `json:"closers,omitempty"`
+	Rounds  int `json:"rounds,omitempty"`
 }
 
 const c15Max = thriftudp.MaxLength
@@ -203,6 +210,19 @@ func c15RunTransport(c *c15Case) (res c15Run) {
 	anyKilled, flakyDest := false, -1
 	closed, undef := false, false
 	buf := make([]byte, 70000)
+	// The caller owns what it hands to Write (io.Writer: "Write must not modify
+	// the slice data ... Implementations must not retain p"): every chunk is
+	// written from ONE re-used backing array with spare capacity, and the whole
+	// array is overwritten as soon as the call has returned.
+	arena := make([]byte, 2*c15Max+8192)
+	lend := func(payload []byte) []byte {
+		return arena[:copy(arena, payload)]
+	}
+	scribble := func() {
+		for i := range arena {
+			arena[i] = 0xA5
+		}
+	}
 
 	for idx, o := range c.Ops {
 		switch o.Op {
@@ -289,19 +309,21 @@ func c15RunTransport(c *c15Case) (res c15Run) {
 				var e error
 				switch {
 				case c.Multi:
-					w, e = multi.Write(payload)
+					w, e = multi.Write(lend(payload))
 				case o.Op == "ws":
 					w, e = single.WriteString(string(payload))
 				default:
-					w, e = single.Write(payload)
+					w, e = single.Write(lend(payload))
 				}
 				code, aux = c15Code(e), int64(w)
 			})
+			scribble()
 		case "wb":
 			payload = c15Payload(idx, 1)
 			if c.Multi { // the multi transport has no WriteByte: the protocol layer writes one byte
 				in = Ev{K: 1, I: []int64{int64(idx), 1}}
-				call(func() { w, e := multi.Write(payload); code, aux = c15Code(e), int64(w) })
+				call(func() { w, e := multi.Write(lend(payload)); code, aux = c15Code(e), int64(w) })
+				scribble()
 			} else {
 				in = Ev{K: 2, I: []int64{int64(idx)}}
 				call(func() { code = c15Code(single.WriteByte(payload[0])) })
@@ -598,6 +620,131 @@ func c15RunReporter(c *c15Case) (obs c15RepObs, pred, fail string) {
 }
 
 // ---------------------------------------------------------------------------
+// overlapping Close calls ("Close is idempotent"; the transport keeps its
+// closed flag in an atomic precisely because Close/IsOpen are called from
+// other goroutines than the writer's: owner and shutdown hook)
+
+type c15RaceObs struct {
+	Round  int      `json:"round"`
+	Errors []string `json:"close_results"`
+}
+
+func c15RunCloseRace(c *c15Case) (obs c15RaceObs, pred, fail string) {
+	sink := c15Listen()
+	defer sink.Close()
+	n := c.Dests
+	if !c.Multi {
+		n = 1
+	}
+	hp := make([]string, n)
+	for i := range hp {
+		hp[i] = sink.LocalAddr().String()
+	}
+	k := c.Closers
+	if k < 2 {
+		k = 2
+	}
+	// Rounds transports, in batches: the k closers walk through a batch
+	// together and meet at a spin barrier in front of every single Close, so
+	// that the k calls on one transport start within a few instructions of
+	// each other (no yield point is needed inside Close).
+	const batch = 64
+	for base := 0; base < c.Rounds && fail == ""; base += batch {
+		m := batch
+		if c.Rounds-base < m {
+			m = c.Rounds - base
+		}
+		trs := make([]thrift.TTransport, m)
+		for j := range trs {
+			var err error
+			if c.Multi {
+				trs[j], err = thriftudp.NewTMultiUDPClientTransport(hp, "")
+			} else {
+				trs[j], err = thriftudp.NewTUDPClientTransport(hp[0], "")
+			}
+			if err != nil {
+				fatal(err)
+			}
+			trs[j].Write([]byte("pending")) // Close with a message in the buffer
+		}
+		arrive := make([]int32, m)
+		errs := make([][]error, m)
+		for j := range errs {
+			errs[j] = make([]error, k)
+		}
+		var done sync.WaitGroup
+		done.Add(k)
+		for i := 0; i < k; i++ {
+			go func(i int) {
+				defer done.Done()
+				for j := 0; j < m; j++ {
+					atomic.AddInt32(&arrive[j], 1)
+					for spins := 1; atomic.LoadInt32(&arrive[j]) < int32(k); spins++ {
+						if spins%512 == 0 {
+							runtime.Gosched() // fewer processors than closers: let the others arrive
+						}
+					}
+					func() {
+						defer func() {
+							if p := recover(); p != nil {
+								errs[j][i] = fmt.Errorf("panic: %v", p)
+							}
+						}()
+						errs[j][i] = trs[j].Close()
+					}()
+				}
+			}(i)
+		}
+		done.Wait()
+		for j := 0; j < m && fail == ""; j++ {
+			tr, round := trs[j], base+j
+			bad := -1
+			var strs []string
+			for i, e := range errs[j] {
+				if e != nil {
+					strs = append(strs, e.Error())
+					if bad < 0 {
+						bad = i
+					}
+				} else {
+					strs = append(strs, "nil")
+				}
+			}
+			switch {
+			case bad >= 0:
+				pred, fail = "close_idempotent_concurrent", fmt.Sprintf("round %d: of %d overlapping Close calls on a fresh transport, call #%d returned %q (the transport was closed normally: every Close must return nil)", round, k, bad, errs[j][bad])
+			case n > 0 && tr.IsOpen():
+				pred, fail = "use_after_close_not_open", fmt.Sprintf("round %d: IsOpen is true after %d overlapping Close calls", round, k)
+			case n > 0 && c15Code(tr.Flush()) != 1:
+				pred, fail = "use_after_close_not_open", fmt.Sprintf("round %d: Flush after %d overlapping Close calls did not return the not-open error", round, k)
+			default:
+				if e := tr.Close(); e != nil {
+					pred, fail = "close_idempotent", fmt.Sprintf("round %d: Close after %d overlapping Close calls returned %q", round, k, e)
+				}
+			}
+			if fail != "" {
+				obs = c15RaceObs{Round: round, Errors: strs}
+			}
+		}
+		for _, tr := range trs {
+			tr.Close()
+		}
+	}
+	if b, _, _ := c15RecvAny(sink); b {
+		if fail == "" {
+			pred, fail = "no_unexpected_datagram", "a datagram was sent by Close"
+		}
+	}
+	return
+}
+
+func c15RecvAny(l *net.UDPConn) (bool, int, error) {
+	buf := make([]byte, 70000)
+	n, ok := c15Poll(l, buf)
+	return ok, n, nil
+}
+
+// ---------------------------------------------------------------------------
 // generator
 
 // one message (the writes between two flushes); over = it does not fit.
@@ -829,11 +976,25 @@ var c15Witnesses = []c15Case{
 func init() {
 	props["C15"] = func(ctx *Ctx) {
 		ctx.Header("UdpCorr")
-		ctx.Res.Rule = "case = (single or multi transport with n destinations, sequence of Write/WriteByte/WriteString/Flush/Close/IsOpen/RemainingBytes/Read calls with chunk sizes around MaxLength, socket of one destination closed behind the transport at a random position) or an M3 reporter scenario (oversized metric, then normal rounds); non-trivial = at least one datagram delivered or one fault (refused write, failed send, use after Close); distinct by case hash"
+		ctx.Res.Rule = "case = (single or multi transport with n destinations, sequence of Write/WriteByte/WriteString/Flush/Close/IsOpen/RemainingBytes/Read calls with chunk sizes around MaxLength; every Write is made from one re-used backing array that is overwritten as soon as the call returns; faults: socket of one destination closed behind the transport, or one destination down for a while (port unreachable, ECONNREFUSED) and back) or an M3 reporter scenario (oversized metric, then normal rounds) or a batch of rounds in which k goroutines call Close on a fresh transport at the same moment (counted in schedules); non-trivial = at least one datagram delivered or one fault (refused write, failed send, use after Close); distinct by case hash"
 		ctx.Res.Extra["max_length"] = c15Max
 		retried, inconclusive, refusedSends := 0, 0, 0
 		// runs one case (retrying once: loopback UDP may drop); returns whether the property held
 		one := func(c *c15Case, witness bool) bool {
+			if c.Kind == "closerace" {
+				obs, pred, fail := c15RunCloseRace(c)
+				kind := "single"
+				if c.Multi {
+					kind = fmt.Sprintf("multi%d", c.Dests)
+				}
+				ctx.Res.Schedules += c.Rounds
+				ctx.Case(c, "", fmt.Sprintf("closerace/%s/closers=%d", kind, c.Closers), hashOf(c))
+				if fail != "" {
+					ctx.Fail(pred, fail, c, obs)
+					return false
+				}
+				return true
+			}
 			if c.Kind == "reporter" {
 				obs, pred, fail := c15RunReporter(c)
 				if fail != "" {
@@ -909,6 +1070,18 @@ func init() {
 			one(&c, false)
 			return
 		}
+		// the caller re-uses the slice it wrote from ("exactly the bytes written
+		// since the previous Flush", whatever the caller does with its own memory
+		// afterwards): messages whose first chunk is large, then small ones
+		for _, c := range []c15Case{
+			{Kind: "transport", Dests: 1, Ops: []c15Op{{Op: "w", N: 5000}, {Op: "flush"}, {Op: "w", N: 9}, {Op: "flush"}}},
+			{Kind: "transport", Dests: 1, Ops: []c15Op{{Op: "w", N: 4096}, {Op: "w", N: 10}, {Op: "wb"}, {Op: "flush"}, {Op: "w", N: 7}, {Op: "ws", N: 3}, {Op: "flush"}}},
+			{Kind: "transport", Dests: 1, Ops: []c15Op{{Op: "w", N: 1}, {Op: "w", N: 30000}, {Op: "flush"}, {Op: "w", N: c15Max}, {Op: "flush"}, {Op: "w", N: 2}, {Op: "flush"}}},
+			{Kind: "transport", Multi: true, Dests: 3, Ops: []c15Op{{Op: "w", N: 6000}, {Op: "wb"}, {Op: "flush"}, {Op: "w", N: 20}, {Op: "flush"}}},
+		} {
+			c := c
+			one(&c, false)
+		}
 		// witness stream: the op sequences on which the pinned tree violates the
 		// property (finding F15).  If one of them fails, the tree under test has
 		// the defect and the main stream stays where pinned and demanded
@@ -943,6 +1116,14 @@ func init() {
 		n := ctx.N(450, 10000)
 		for i := 0; i < n; i++ {
 			c := c15Gen(ctx.R, restricted)
+			one(&c, false)
+		}
+		// overlapping Close calls on fresh transports (uncontrolled interleavings)
+		for i, nb := 0, ctx.N(12, 120); i < nb; i++ {
+			c := c15Case{Kind: "closerace", Dests: 1, Closers: 2 + i%3, Rounds: 500}
+			if i%4 == 3 {
+				c.Multi, c.Dests = true, 2+i%2
+			}
 			one(&c, false)
 		}
 		nrep := ctx.N(8, 120)
